@@ -277,9 +277,10 @@ func checkMain(args []string) int {
 	units = append(units, Unit{ID: "canary", Harness: "canary", Params: map[string]string{"n": "2"}, Domain: "quick"})
 	for i := range units {
 		if units[i].Domain == "" {
-			// thorough: all of Unicode for texts of up to three runes; the longer texts (where the path count
-			// is what costs) keep the clipped rune domain of the quick tier
-			if n, _ := strconv.Atoi(units[i].Params["n"]); tier == "thorough" && n <= 3 {
+			// thorough: all of Unicode for texts of up to two runes (no finite-domain procedure there: every
+			// decision is a z3 query over the 600-range Unicode predicates); longer texts, where the path count
+			// is what costs, keep the clipped rune domain of the quick tier
+			if n, _ := strconv.Atoi(units[i].Params["n"]); tier == "thorough" && n <= 2 {
 				units[i].Domain = "full"
 			} else {
 				units[i].Domain = "quick"
@@ -311,8 +312,8 @@ func checkMain(args []string) int {
 // thoroughBudget: number of units explored by the thorough tier per property (chosen so that a run takes
 // roughly 10 to 30 minutes on 16 cores; GOSYM_THOROUGH_UNITS overrides).
 var thoroughBudget = map[string]int{
-	"C01": 16000, "C15": 16000, "C03": 24000, "C04": 24000, "C05": 21000, "C07": 6000, "C18": 8000, "C20": 5000,
-	"C02": 3200, "C08": 2000, "C06": 800, "C17": 4000, "C16": 8000, "C09": 2000, "C12": 800, "C13": 600, "C10": 400, "C11": 50,
+	"C01": 16000, "C15": 16000, "C03": 24000, "C04": 24000, "C05": 21000, "C07": 6000, "C18": 8000, "C20": 4000,
+	"C02": 2600, "C08": 1500, "C06": 500, "C17": 4000, "C16": 7000, "C09": 1500, "C12": 600, "C13": 450, "C10": 300, "C11": 40,
 }
 
 var runInfo map[string]any
